@@ -178,8 +178,11 @@ def _options(draw, avoid_trunc_hazard):
         if draw(st.booleans()):
             opts['truncate_char'] = draw(st.sampled_from(['[...]', '…', '..', '~', '']))
     if which >= 4:
-        if draw(st.booleans()):
-            opts.update(draw(O.layout_options()))
+        if draw(st.integers(0, 3)) > 0:
+            lay = draw(O.layout_options())
+            if not lay:
+                lay = {draw(st.sampled_from(O.LAYOUT_BOOL)): True}
+            opts.update(lay)
         else:
             extra = draw(O.targeted_options())
             extra.pop('output_format', None)
